@@ -366,6 +366,8 @@ def gen_effect_emission(loader, check, replay_on=True):
                 if p.outcome != "return":
                     continue
                 emit.frame_obligation(check, "Assignment.il_write", pi, p)
+                from .catalog import listed_obligation
+                listed_obligation(check, "Assignment.il_write", pi, p, p.state["a"], [p.state["s"]])
                 t = emit.as_tpl(p.value)
                 try:
                     term = rzil.parse_expr(t.parts)
